@@ -68,12 +68,12 @@ theorem colsRaise_eq (tb : Tables) : ∀ cols : List Col, colsRaise tb cols = (p
       by_cases hs : lower ty == "serial"
       · simp only [hs, if_true]
         cases hg : getType tb "INT" with
-        | some e => simp [ht, hs, hg]
-        | none => simp [ht, hs, hg, ih]
+        | some e => simp
+        | none => simp [ih]
       · simp only [hs]
         cases hg : getType tb ty with
-        | some e => simp [ht, hs, hg]
-        | none => simp [ht, hs, hg, ih]
+        | some e => simp [ht, hg]
+        | none => simp [ht, hg, ih]
 
 /-- the column loop raises nothing but NotImplementedError -/
 theorem colsRaise_ok (tb : Tables) : ∀ cols : List Col, colsRaise tb cols = none ∨ colsRaise tb cols = some .notImpl
